@@ -9,6 +9,7 @@ import (
 	"sort"
 	"strings"
 	"sync"
+	"sync/atomic"
 	"testing"
 	"time"
 
@@ -42,6 +43,7 @@ func TestC17(t *testing.T) {
 	world.Quiet()
 	run := rep.New("C17", "exploration",
 		"rate: for (rate 600/min, burst in {1,5,20}, global limit off/on) x client behaviours (1..8 TCP connections, keep-alive on/off, concurrent senders, one path / many paths incl. non-proxied ones / provider prefix / Anthropic route) a fixed number of requests is fired from 127.0.0.1 as fast as the connections allow; admitted = has a backend record; oracle: for every window of consecutive admissions (in backend receive order) their number never exceeds burst + rate x (last receive - earliest send), which a token bucket implies for every schedule, and every refused request is answered 429; first contact: 8 simultaneous first requests from each of several hundred fresh loopback source addresses (every trial a client the limiter has never seen) must not admit more than burst; window rollover: a client's one-minute accounting window is aged by 61 s (hook) right after it drained its bucket - no new burst; size: bodies of L-1, L, L+1, 5L bytes around max_body_size with declared and chunked length on the proxy route must never reach a backend above L, and Anthropic requests above max_message_size get 413 in both encodings. distinct = distinct (config, behaviour) / (route, size, encoding)")
+	run.Assume("where several senders hit the limiter at once, the bound is burst + rate x (t + slack): the limiter reads the clock before it takes its lock (x/time/rate does, inside Reserve), so a caller held up by the scheduler acts on a stale reading and the bucket can run ahead by rate x that delay; slack = max(10 ms, twice the worst goroutine wake-up delay measured during the scenario), and a scenario whose slack would reach a whole token period is inconclusive, not judged")
 	run.Assume("the rate inequality uses the client's send stamp and the backend's receive stamp, so scheduling delays can only loosen it; 'buffered beyond the limit' is not observable from outside the process and is not judged")
 	rng := rand.New(rand.NewSource(rep.Seed()))
 	var cfgs []rcfg
@@ -86,7 +88,61 @@ func TestC17(t *testing.T) {
 	run.Require("requests_refused", 200)
 	run.Require("requests_admitted", 100)
 	run.Require("size_cases", 24)
+	run.Note("max_scheduling_slack_ms", float64(maxSlackUS.Load())/1000)
 	run.Finish(t)
+}
+
+// jitterProbe measures how late this process's goroutines are scheduled while a scenario runs
+// (a goroutine that sleeps 1 ms and looks how much later it wakes up). The limiter under test
+// reads the clock *before* it takes its lock (golang.org/x/time/rate does, inside Reserve), so
+// two of its callers can act on readings that are out of order by as much as a goroutine can be
+// held up; a token bucket driven by such readings can run ahead of burst + rate x t by at most
+// rate x that delay. The oracle therefore grants rate x slack tokens on top of the bound, with
+// slack = max(10 ms, twice the worst delay seen); when the machine is so loaded that the slack
+// would reach a whole token period, the scenario is inconclusive instead.
+var maxSlackUS atomic.Int64
+
+func noteSlack(s float64) {
+	if us := int64(s * 1e6); us > maxSlackUS.Load() {
+		maxSlackUS.Store(us)
+	}
+}
+
+type jitterProbe struct {
+	stop chan struct{}
+	done chan struct{}
+	max  atomic.Int64
+}
+
+func startJitterProbe() *jitterProbe {
+	j := &jitterProbe{stop: make(chan struct{}), done: make(chan struct{})}
+	go func() {
+		defer close(j.done)
+		for {
+			select {
+			case <-j.stop:
+				return
+			default:
+			}
+			t := time.Now()
+			time.Sleep(time.Millisecond)
+			if over := int64(time.Since(t) - time.Millisecond); over > j.max.Load() {
+				j.max.Store(over)
+			}
+		}
+	}()
+	return j
+}
+
+// slack ends the probe and returns the scheduling slack in seconds.
+func (j *jitterProbe) slack() float64 {
+	close(j.stop)
+	<-j.done
+	s := 2 * float64(j.max.Load()) / 1e9
+	if s < 0.010 {
+		s = 0.010
+	}
+	return s
 }
 
 func rateScenario(run *rep.Run, c rcfg, bh behaviour, id int) {
@@ -151,8 +207,10 @@ func rateScenario(run *rep.Run, c rcfg, bh behaviour, id int) {
 			}
 		}(cn)
 	}
+	jp := startJitterProbe()
 	close(start)
 	wg.Wait()
+	slack := jp.slack()
 	b.WaitIdle(2 * time.Second)
 	recvBy := map[string]int64{}
 	for _, r := range b.ProxyRecords() {
@@ -183,6 +241,11 @@ func rateScenario(run *rep.Run, c rcfg, bh behaviour, id int) {
 		run.Sample(map[string]any{"config": c, "behaviour": bh, "sent": len(results), "admitted": len(admitted), "refused_by_status": refused})
 	}
 	rate := float64(c.PerMin) / 60.0
+	noteSlack(slack)
+	if rate*slack >= 1 {
+		run.Inconclusive(fmt.Sprintf("machine too loaded to judge a %.0f ms token period (goroutines were held up by up to %.0f ms)", 1000/rate, slack*500))
+		return
+	}
 	connClass := "one-connection"
 	if bh.Conns > 1 || !bh.KeepAlive {
 		connClass = "many-connections"
@@ -196,10 +259,10 @@ func rateScenario(run *rep.Run, c rcfg, bh behaviour, id int) {
 				minSend = admitted[j].send
 			}
 			n := float64(j - i + 1)
-			allowed := float64(c.Burst) + rate*float64(admitted[j].recv-minSend)/1e9
+			allowed := float64(c.Burst) + rate*(float64(admitted[j].recv-minSend)/1e9+slack)
 			if n > allowed+1e-6 && n-allowed > worst {
 				worst = n - allowed
-				worstW = map[string]any{"admissions_in_window": int(n), "window_s": float64(admitted[j].recv-minSend) / 1e9, "allowed": allowed}
+				worstW = map[string]any{"admissions_in_window": int(n), "window_s": float64(admitted[j].recv-minSend) / 1e9, "allowed": allowed, "scheduling_slack_s": slack}
 			}
 		}
 	}
@@ -253,8 +316,11 @@ func freshClientBursts(run *rep.Run) {
 					sends[sdr], statuses[sdr] = res.TCall, res.Status
 				}(sdr)
 			}
+			jp := startJitterProbe()
 			close(start)
 			wg.Wait()
+			slack := jp.slack()
+			noteSlack(slack)
 			b.WaitIdle(2 * time.Second)
 			var firstSend, lastRecv int64
 			admitted := 0
@@ -282,7 +348,11 @@ func freshClientBursts(run *rep.Run) {
 				run.Count("fresh_client_bursts_without_admission", 1)
 				continue
 			}
-			allowed := float64(burst) + float64(perMin)/60.0*float64(lastRecv-firstSend)/1e9
+			if float64(perMin)/60.0*slack >= 1 {
+				run.Count("fresh_client_bursts_not_judged_machine_too_loaded", 1)
+				continue
+			}
+			allowed := float64(burst) + float64(perMin)/60.0*(float64(lastRecv-firstSend)/1e9+slack)
 			if float64(admitted) > allowed+1e-6 {
 				run.Violation("C17/rate-bound-exceeded/first-contact", fmt.Sprintf("%d of %d simultaneous first requests of a new client (%s) were admitted within %.3f s; burst %d at %g/s allows %.2f", admitted, senders, ip, float64(lastRecv-firstSend)/1e9, burst, float64(perMin)/60.0, allowed),
 					map[string]any{"engine": eng, "client_ip": ip.String(), "admitted": admitted, "statuses": statuses})
